@@ -100,6 +100,7 @@ Fixpoint spec_has_rt (d : desc) : bool :=
   | DCall _ ck c =>
       match ck with
       | CkRetryTimeout _ => true
+      | CkRetryRetx _ _ _ => true
       | CkRetryPing true FCtx1 => true
       | _ => uses_cause ck && spec_has_rt c
       end
@@ -112,6 +113,7 @@ Definition spec_must_retry (d : desc) : bool :=
   match d with
   | DCall _ (CkReq k _) _ => retryable_kind k && negb (spec_bare_eof d)
   | DCall _ (CkRetryTimeout k) _ => retryable_kind k
+  | DCall _ (CkRetryRetx k _ _) _ => retryable_kind k
   | _ => false
   end.
 
